@@ -182,6 +182,47 @@ func canonicalise(opt LoadOptions) (*canonResult, error) {
 		}
 		curProg = nil
 	}
+	// table loops: unrolling passes over the view obtained so far (one loop per pass: positions go stale)
+	for pass := 0; pass < 4; pass++ {
+		applied := false
+		cur.Overlay = res.Overlay
+		if curProg == nil {
+			if p, err := Load(cur); err == nil {
+				curProg = p
+			}
+		}
+		if curProg != nil {
+			for _, uc := range findUnrollCands(curProg, res) {
+				srcb, err := readSource(uc.file, res.Overlay)
+				if err != nil {
+					continue
+				}
+				outb, err := applyEdits(srcb, uc.edits)
+				if err != nil {
+					continue
+				}
+				ov := map[string][]byte{}
+				for k, v := range res.Overlay {
+					ov[k] = v
+				}
+				ov[uc.file] = outb
+				o2 := cur
+				o2.Overlay = ov
+				if _, err := Load(o2); err != nil {
+					res.Skipped = append(res.Skipped, uc.desc+": unrolled view does not type-check ("+firstLine(err.Error())+")")
+					continue
+				}
+				res.Overlay = ov
+				res.Inlined = append(res.Inlined, "unrolled "+uc.desc)
+				curProg = nil
+				applied = true
+				break
+			}
+		}
+		if !applied {
+			break
+		}
+	}
 	if len(res.Inlined) == 0 {
 		return res, nil
 	}
@@ -508,6 +549,7 @@ func planInlineSite(p *Prog, c *inlineCand, r Ref, res *canonResult) string {
 	}
 	nres := sig.Results().Len()
 	var stmt ast.Stmt
+	var hoistBefore ast.Stmt // statement in front of which a hoisted block is placed (default: stmt itself)
 	mode := ""
 	switch x := par.(type) {
 	case *ast.ExprStmt:
@@ -519,6 +561,12 @@ func planInlineSite(p *Prog, c *inlineCand, r Ref, res *canonResult) string {
 	case *ast.AssignStmt:
 		if len(x.Rhs) == 1 && unparen(x.Rhs[0]) == ast.Expr(call) {
 			stmt, mode = x, "hoist"
+			// `if v := H(); cond {`: the block is hoisted in front of the if statement
+			if is, ok := p.parents[x].(*ast.IfStmt); ok && is.Init == ast.Stmt(x) {
+				if _, isElse := p.parents[is].(*ast.IfStmt); !isElse {
+					hoistBefore = is
+				}
+			}
 		}
 	case *ast.IfStmt:
 		if x.Init == nil && unparen(x.Cond) == ast.Expr(call) {
@@ -550,13 +598,14 @@ func planInlineSite(p *Prog, c *inlineCand, r Ref, res *canonResult) string {
 		mode = "stmt" // results discarded: returns become breaks, result expressions are still evaluated
 	}
 	// the statement must be directly in a block / clause body (so that it can be replaced by statements)
-	switch p.parents[stmt].(type) {
+	anchorStmt := stmt
+	if hoistBefore != nil {
+		anchorStmt = hoistBefore
+	}
+	switch p.parents[anchorStmt].(type) {
 	case *ast.BlockStmt, *ast.CaseClause, *ast.CommClause:
 	default:
 		return "call statement is not in a statement list"
-	}
-	if lb, ok := p.parents[stmt].(*ast.LabeledStmt); ok && lb != nil {
-		return "labelled call statement"
 	}
 
 	tag := fmt.Sprintf("_inl%d", inlineSeq.Add(1))
@@ -735,7 +784,7 @@ func planInlineSite(p *Prog, c *inlineCand, r Ref, res *canonResult) string {
 		c.edits[file] = append(c.edits[file], textEdit{off(stmt.Pos()), off(stmt.End()), b.String()})
 	case "hoist":
 		// the inlined block goes before the statement; the call is replaced by the result temporaries
-		c.edits[file] = append(c.edits[file], textEdit{off(stmt.Pos()), off(stmt.Pos()), b.String()})
+		c.edits[file] = append(c.edits[file], textEdit{off(anchorStmt.Pos()), off(anchorStmt.Pos()), b.String()})
 		c.edits[file] = append(c.edits[file], textEdit{off(call.Pos()), off(call.End()), strings.Join(resNames, ", ")})
 	}
 	return ""
@@ -871,4 +920,263 @@ func substituteExpr(p *Prog, f *Func, call *ast.CallExpr, info *types.Info, hsrc
 		return "", err.Error()
 	}
 	return "(" + string(out) + ")", ""
+}
+
+// ---------------------------------------------------------------------------------------------
+// Table-loop unrolling: `for _, v := range T` over a local composite literal of at most
+// maxUnroll positional elements (a "table of checks") is replaced, in the canonical view only, by one
+// copy of the body per element with v bound to that element; `continue` leaves the copy, `break` leaves
+// all copies. Semantics are unchanged (per-iteration variables, same order); the view is type-checked.
+
+const maxUnroll = 8
+
+type unrollCand struct {
+	desc  string
+	file  string
+	edits []textEdit
+}
+
+func importQualifier(p *Prog, pk *Func, pos token.Pos) (func(*types.Package) string, *string) {
+	fail := new(string)
+	var astFile *ast.File
+	for _, sf := range pk.Pkg.Syntax {
+		if sf.Pos() <= pos && pos <= sf.End() {
+			astFile = sf
+		}
+	}
+	imports := map[string]string{}
+	if astFile != nil {
+		for _, im := range astFile.Imports {
+			path := strings.Trim(im.Path.Value, "\"")
+			nm := ""
+			if im.Name != nil {
+				nm = im.Name.Name
+			} else if pn, ok := pk.Info().Implicits[im].(*types.PkgName); ok {
+				nm = pn.Name()
+			}
+			imports[path] = nm
+		}
+	}
+	return func(tp *types.Package) string {
+		if tp == pk.Pkg.Types {
+			return ""
+		}
+		if nm, ok := imports[tp.Path()]; ok && nm != "" && nm != "_" && nm != "." {
+			return nm
+		}
+		*fail = "type from package " + tp.Path() + " cannot be named here"
+		return tp.Name()
+	}, fail
+}
+
+func findUnrollCands(p *Prog, res *canonResult) []*unrollCand {
+	var out []*unrollCand
+	seq := 0
+	for _, f := range p.All {
+		if f.Decl == nil || f.Parent != nil || p.IsGenerated(f.Decl) {
+			continue
+		}
+		info := f.Info()
+		file := p.Fset.Position(f.Decl.Pos()).Filename
+		src, err := readSource(file, res.Overlay)
+		if err != nil {
+			continue
+		}
+		off := func(pos token.Pos) int { return p.Fset.Position(pos).Offset }
+		var taken []*ast.RangeStmt
+		ast.Inspect(f.Decl.Body, func(n ast.Node) bool {
+			rs, ok := n.(*ast.RangeStmt)
+			if !ok || rs.Tok != token.DEFINE {
+				return true
+			}
+			for _, t := range taken { // no nested unrolling in one round
+				if within(rs, t) {
+					return true
+				}
+			}
+			if _, labelled := p.parents[rs].(*ast.LabeledStmt); labelled {
+				return true
+			}
+			switch p.parents[rs].(type) {
+			case *ast.BlockStmt, *ast.CaseClause, *ast.CommClause:
+			default:
+				return true
+			}
+			// the table
+			var lit *ast.CompositeLit
+			var tableObj types.Object
+			switch x := unparen(rs.X).(type) {
+			case *ast.CompositeLit:
+				lit = x
+			case *ast.Ident:
+				obj, _ := info.Uses[x].(*types.Var)
+				if obj == nil || obj.IsField() || obj.Parent() == obj.Pkg().Scope() {
+					return true
+				}
+				uses := 0
+				var def *ast.CompositeLit
+				ast.Inspect(f.Decl.Body, func(m ast.Node) bool {
+					switch y := m.(type) {
+					case *ast.Ident:
+						if info.Uses[y] == obj {
+							uses++
+						}
+					case *ast.AssignStmt:
+						if y.Tok == token.DEFINE && len(y.Lhs) == 1 && len(y.Rhs) == 1 {
+							if id, ok := y.Lhs[0].(*ast.Ident); ok && info.Defs[id] == obj {
+								def, _ = unparen(y.Rhs[0]).(*ast.CompositeLit)
+							}
+						}
+					}
+					return true
+				})
+				if uses != 1 || def == nil {
+					return true
+				}
+				lit, tableObj = def, obj
+			default:
+				return true
+			}
+			lt := info.TypeOf(lit)
+			if lt == nil {
+				return true
+			}
+			var elemT types.Type
+			switch u := lt.Underlying().(type) {
+			case *types.Slice:
+				elemT = u.Elem()
+			case *types.Array:
+				elemT = u.Elem()
+			default:
+				return true
+			}
+			if len(lit.Elts) == 0 || len(lit.Elts) > maxUnroll {
+				return true
+			}
+			for _, e := range lit.Elts {
+				if _, kv := e.(*ast.KeyValueExpr); kv {
+					return true
+				}
+				if cl, isLit := e.(*ast.CompositeLit); isLit && cl.Type == nil {
+					return true // elided element type: the text alone is not an expression
+				}
+			}
+			// body restrictions and branch statements that target this loop
+			bad := false
+			var conts, breaks []*ast.BranchStmt
+			var walk func(n ast.Node, inLoop, inBreakable bool)
+			walk = func(n ast.Node, inLoop, inBreakable bool) {
+				if n == nil || bad {
+					return
+				}
+				switch x := n.(type) {
+				case *ast.FuncLit:
+					return
+				case *ast.LabeledStmt:
+					bad = true
+					return
+				case *ast.BranchStmt:
+					if x.Label != nil || x.Tok == token.GOTO || x.Tok == token.FALLTHROUGH {
+						if x.Tok != token.FALLTHROUGH {
+							bad = true
+						}
+						return
+					}
+					if x.Tok == token.CONTINUE && !inLoop {
+						conts = append(conts, x)
+					}
+					if x.Tok == token.BREAK && !inBreakable {
+						breaks = append(breaks, x)
+					}
+					return
+				case *ast.ForStmt:
+					walk(x.Body, true, true)
+					return
+				case *ast.RangeStmt:
+					walk(x.Body, true, true)
+					return
+				case *ast.SwitchStmt:
+					walk(x.Body, inLoop, true)
+					return
+				case *ast.TypeSwitchStmt:
+					walk(x.Body, inLoop, true)
+					return
+				case *ast.SelectStmt:
+					walk(x.Body, inLoop, true)
+					return
+				}
+				children(n, func(c ast.Node) { walk(c, inLoop, inBreakable) })
+			}
+			walk(rs.Body, false, false)
+			if bad {
+				return true
+			}
+			qual, qfail := importQualifier(p, f, rs.Pos())
+			tstr := types.TypeString(elemT, qual)
+			if *qfail != "" {
+				return true
+			}
+			name := func(e ast.Expr) string {
+				if id, ok := e.(*ast.Ident); ok && id.Name != "_" {
+					return id.Name
+				}
+				return ""
+			}
+			kn, vn := "", ""
+			if rs.Key != nil {
+				kn = name(rs.Key)
+			}
+			if rs.Value != nil {
+				vn = name(rs.Value)
+			}
+			seq++
+			tag := fmt.Sprintf("_unr%d_%d", len(res.Inlined), seq+int(inlineSeq.Add(1)))
+			bodyStart, bodyEnd := off(rs.Body.Lbrace)+1, off(rs.Body.Rbrace)
+			body := src[bodyStart:bodyEnd]
+			var b strings.Builder
+			b.WriteString("{ // pscheck canonical view: loop over a " + fmt.Sprint(len(lit.Elts)) + "-element table unrolled\n")
+			if tableObj != nil {
+				b.WriteString("_ = " + tableObj.Name() + "\n")
+			}
+			if len(breaks) > 0 {
+				b.WriteString("LU" + tag + ":\nswitch {\ndefault:\n")
+			}
+			for i, e := range lit.Elts {
+				var bedits []textEdit
+				for _, c := range conts {
+					bedits = append(bedits, textEdit{off(c.Pos()) - bodyStart, off(c.End()) - bodyStart, fmt.Sprintf("break LI%s_%d", tag, i)})
+				}
+				for _, br := range breaks {
+					bedits = append(bedits, textEdit{off(br.Pos()) - bodyStart, off(br.End()) - bodyStart, "break LU" + tag})
+				}
+				nb, err := applyEdits(body, bedits)
+				if err != nil {
+					return true
+				}
+				b.WriteString("{\n")
+				if vn != "" {
+					fmt.Fprintf(&b, "var %s %s = %s\n_ = %s\n", vn, tstr, string(src[off(e.Pos()):off(e.End())]), vn)
+				}
+				if kn != "" {
+					fmt.Fprintf(&b, "var %s int = %d\n_ = %s\n", kn, i, kn)
+				}
+				if len(conts) > 0 {
+					fmt.Fprintf(&b, "LI%s_%d:\nswitch {\ndefault:\n", tag, i)
+				}
+				b.Write(nb)
+				if len(conts) > 0 {
+					b.WriteString("\n}\n")
+				}
+				b.WriteString("\n}\n")
+			}
+			if len(breaks) > 0 {
+				b.WriteString("}\n")
+			}
+			b.WriteString("}\n")
+			taken = append(taken, rs)
+			out = append(out, &unrollCand{desc: f.Name + ": table loop at " + p.Pos(rs), file: file, edits: []textEdit{{off(rs.Pos()), off(rs.End()), b.String()}}})
+			return true
+		})
+	}
+	return out
 }
